@@ -85,6 +85,37 @@ func idTypFromOwnAttributes(c *cx, id string) {
 		c.dom(id, f, w.Stmt, "value taken from an attribute ("+rhs+")", []string{"eq(rangeval(p0).Name.Space,\"\")"})
 	}
 	c.r.Floor(id, "attribute values taken in getIDTyp", n, 2)
+	// the scan looks at every attribute: it leaves the loop early only when both
+	// the id and the type have been found (a `break` at the first namespaced
+	// attribute hides an id or type that is written after xml:lang)
+	nl := 0
+	f.WalkBody(func(nd ast.Node) bool {
+		rs, ok := nd.(*ast.RangeStmt)
+		if !ok || f.Norm(rs.X, nil) != "p0" {
+			return true
+		}
+		nl++
+		_, head, done, okl := g.LoopPoints(rs)
+		if !okl {
+			c.r.Check(id, f, "attribute scan", "loop placed in the graph", rs.Pos(), false, "range loop not found in the control-flow graph")
+			return true
+		}
+		for _, b := range g.Blocks {
+			if !b.Live || int(b.Index) == head.B {
+				continue
+			}
+			for _, sc := range b.Succs {
+				if int(sc.Index) != done.B {
+					continue
+				}
+				pt := eng.Point{B: int(b.Index), I: len(b.Nodes)}
+				found := g.DominatingAtoms(pt, "lt(-1,*)")
+				c.r.Check(id, f, "early exit of the attribute scan", "G: the scan stops before the end of the list only when both id and type were found", rs.Pos(), len(found) >= 2, "the loop is left early without both having been found: attributes after that point are not looked at")
+			}
+		}
+		return true
+	})
+	c.r.Floor(id, "attribute scans in getIDTyp", nl, 1)
 }
 
 // attrGetNotUsed (C05.16 / C06.23 / C07.12 / C13.23): the namespace-blind
